@@ -72,7 +72,7 @@ Proof.
   intros Ho Hne Hf Ht. pose proof Ho as (_ & _ & Hc & _). apply existsb_exists.
   set (lv := fun f => match get_cell q f t with Some l => l | None => 0 end).
   assert (Hlv : forall f, In f c -> lv f < nlevels fb f /\ get_cell q f t = Some (lv f)).
-  { intros f Hin. destruct (Hc t f Ht (f1_act_lt fb HF1 f (proj1 (Forall_forall _ _) Hf f Hin))) as (l & Hl & El).
+  { intros f Hin. destruct (Hc t f Ht (proj1 (Forall_forall _ _) Hf f Hin)) as (l & Hl & El).
     unfold lv. rewrite El. split; [exact Hl|reflexivity]. }
   set (di0 := map (fun f => (f, lv f)) c).
   assert (Hfst : map fst di0 = c) by (unfold di0; rewrite map_map; cbn [fst]; apply map_id).
